@@ -6,7 +6,7 @@ From Verif Require Import lib.Wire c05.ModelLimiter c05.SpecLimiter c05.Proofs_L
 From Verif Require Import c05.ModelWorker c05.SpecWorker c05.Proofs_Worker.
 From Verif Require Import c05.ModelRanker c05.SpecRanker c05.Proofs_Ranker.
 From Verif Require Import c05.Proofs_LimiterMon c05.Proofs_WorkerMon.
-From Verif Require Import c05.ModelSync c05.SpecSync c05.Proofs_Sync.
+From Verif Require Import c05.ModelSync c05.SpecSync c05.Proofs_Sync c05.SpecDialPeer.
 Import ListNotations.
 Local Open Scope Z_scope.
 
@@ -267,4 +267,12 @@ Qed.
 Example sync_monitor_rejects_close_before_cancel :
   monitor_s_case [1; 1; 1;  1; 1; 1; 1; 1; 0; 0;  0;  0;
                   2; 1;     1; 1; 0; 0; 1; 1; 1;  1; 1; 2;  3] <> [].
+Proof. vm_compute. discriminate. Qed.
+
+(* the DialPeer monitor rejects a trace in which cancelling one caller ends the dials
+   the other caller still waits for *)
+Example dialpeer_monitor_rejects_shared_cancel :
+  monitor_d_case [2; 4;  1; 1; 0; 0;  0; 1; 7; 0;  1; 1; 1; 1; 1; 0; 1;
+                         1; 2; 0; 0;  0; 0; 0;     1; 1; 1; 1; 1; 0; 2;
+                         4; 1;        1; 1; 2; 0; 1; 7;  0; 0; 0; 0; 1; 0; 1] <> [].
 Proof. vm_compute. discriminate. Qed.
